@@ -156,7 +156,12 @@ def bar(
 @check_ndim(2)
 def map(h2: Histogram2D, **kwargs) -> go.Figure:
     """Heatmap."""
-    data = [go.Heatmap(z=h2.frequencies, **kwargs)]
+    # plotly puts z[j][i] at (x[i], y[j]); x / y with one more item than z are cell edges
+    x, y = (
+        binning.numpy_bins if binning.is_consecutive() else (binning.bins[:, 0] + binning.bins[:, 1]) / 2
+        for binning in h2._binnings
+    )
+    data = [go.Heatmap(z=h2.frequencies.T, x=x, y=y, **kwargs)]
     layout = go.Layout()
     figure = go.Figure(data=data, layout=layout)
     return figure
